@@ -193,6 +193,9 @@ class ConvexSpheropolygon(Shape2D):
         For more general information about this calculation, see
         `Shape.distance_to_surface`.
         """
+        # Bring the angles into [0, 2 pi): they are compared with the angular ranges of
+        # the rounded corners below (this also handles an np.asarray for us).
+        angles = np.mod(angles, 2 * np.pi)
         num_verts = self.num_vertices
         verts = self._polygon.vertices[:, :2] - self._polygon.centroid[:2]
 
